@@ -4,7 +4,7 @@ import itertools
 import numpy as np
 import pandas as pd
 
-from .. import common
+from .. import common, checklib
 from ..rtc.gen import rank, same_span
 
 LEVEL = "exploration"
@@ -203,7 +203,15 @@ def check_through_design(rng):
     return out
 
 
+def PROOFS():
+    from ..contracts import transforms_c
+    T = "formulae.transforms."
+    return [("vf.contracts.transforms_c", [T + "Center.__call__", T + "Scale.__call__", T + "BSpline.__call__", T + "BSpline.eval",
+                                           T + "Polynomial.__init__"])]
+
+
 def run(report, findings):
+    checklib.run_proofs(report, "C14", PROOFS())
     import logging
     import warnings
     logging.getLogger("formulae").setLevel(logging.CRITICAL)
